@@ -139,6 +139,14 @@ func (c Case) coq() string {
 	if c.Loop == "auth" {
 		l = "LAuth"
 	}
+	switch c.Via { // the users of the client: the MODEL says which loop they start
+	case "rwc":
+		l = lib.App("wrapper_choice", lib.Bool(c.Loop == "plain"))
+	case "file":
+		l = "file_choice"
+	case "client", "status":
+		l = "client_pkg_choice"
+	}
 	sch := make([]string, len(c.Sched))
 	for i, s := range c.Sched {
 		sch[i] = s.coq()
@@ -244,6 +252,7 @@ func genLoopCases(rng *lib.Rng, n int, thorough bool) []Case {
 		c.Cancel = Cancel{I: 1, P: "conn"}
 		cs = append(cs, c)
 	}
+	cs = append(cs, genWrapperCases(rng.Fork(), map[bool]int{false: 2, true: 4}[thorough])...)
 	for i := 0; i < nOutage; i++ { // long outages
 		cs = append(cs, genOutageCase(rng.Fork(), []string{"plain", "auth"}[i%2]))
 	}
@@ -454,6 +463,37 @@ func genReuseCases(r *lib.Rng, rounds int) []Case {
 				}
 			}
 			c.Sched = append(c.Sched, Step{A: "ok", W: "acceptstay"})
+			c.Cancel = Cancel{I: len(c.Sched) - 1, P: "conn"}
+			cs = append(cs, c)
+		}
+	}
+	return cs
+}
+
+// genWrapperCases: the real users of the client with their own default Retry (1 s / 10 s): a destination
+// rule of the host (internal/rwc, without token = Reconnect, with token = ReconnectAuth) and the file tool
+// (internal/file.Run, the entry point of `relay file`). The server fails k times, accepts and drops after
+// K messages each way, accepts again and stays; then the rule is deleted / the tool's context cancelled.
+func genWrapperCases(r *lib.Rng, per int) []Case {
+	var cs []Case
+	fast := []string{"refuse", "4xx", "5xx", "garbage", "emptyuri", "down"}
+	for _, w := range []struct{ via, loop string }{{"rwc", "plain"}, {"rwc", "auth"}, {"file", "auth"}} {
+		for n := 0; n < per; n++ {
+			c := Case{Kind: "loop", Loop: w.loop, Via: w.via, Min: 1000 * ms, Max: 10000 * ms, Factor: cfgFact, Stay: int64(2 * time.Second)}
+			if w.via == "file" {
+				c.Stay = int64(4 * time.Second) // the play file sends 8 numbered lines, 300 ms apart
+			}
+			for k := 1 + (n % 2); k > 0; k-- {
+				st := Step{A: "ok", W: r.Pick(fast)}
+				if w.loop == "auth" && r.Bool() {
+					st = Step{A: r.Pick(accFail), W: "down"}
+				}
+				if r.Chance(2, 5) {
+					st.H = r.Pick(replyExtras)
+				}
+				c.Sched = append(c.Sched, st)
+			}
+			c.Sched = append(c.Sched, Step{A: "ok", W: "accept", K: r.Range(1, 4)}, Step{A: "ok", W: "acceptstay"})
 			c.Cancel = Cancel{I: len(c.Sched) - 1, P: "conn"}
 			cs = append(cs, c)
 		}
